@@ -237,7 +237,7 @@ unsafe fn drop_cycle<T>(cycle: HashMap<Link<T>, usize>) {
         // deallocate. This allows us to bust the cycle detection by clearing
         // all links.
         let rcbox = ptr.as_ptr();
-        let cycle_strong_refs = {
+        {
             let mut links = (*rcbox).links().borrow_mut();
             links
                 .extract_if(|link, _| {
@@ -247,14 +247,15 @@ unsafe fn drop_cycle<T>(cycle: HashMap<Link<T>, usize>) {
                         false
                     }
                 })
-                .map(|(link, count)| {
-                    if let Kind::Forward = link.kind() {
-                        count
-                    } else {
-                        0
-                    }
-                })
-                .sum::<usize>()
+                .for_each(drop);
+        }
+        // `refcount` is the number of strong references to this node that are
+        // held by members of the cycle. Loopback links do not own a strong
+        // reference.
+        let cycle_strong_refs = if let Kind::Forward = ptr.kind() {
+            refcount
+        } else {
+            0
         };
 
         // To be in a cycle, at least one `value` field in an `RcBox` in the
